@@ -26,7 +26,7 @@ import (
 
 // C16 — the local filesystem store behaves like an object store.
 // E2: every state over a 7-key universe (absent / d1 / d2 per key) is built on a fresh store; in every state the full
-//     observer battery runs (Get/Has/GetAttr of every key, Keys, KeysPrefix for 7 prefixes x 2 delimiters x every page
+//     observer battery runs (Get/Has/GetAttr of every key, Has of every proper path prefix of the keys, Keys, KeysPrefix for 7 prefixes x 2 delimiters x every page
 //     size, paginated to the end) and every single operation is applied and compared with a map model.
 // E1: 2..3 concurrent exclusive Puts to one key (+ a reader), afero calls gated, all interleavings.
 
@@ -144,6 +144,28 @@ func c16battery(rep *lib.Report, be string, st storage.Store, model map[string][
 			}
 		})
 	}
+	// names that are proper path prefixes of keys (directories of the backing file system) are not objects
+	dirs := map[string]bool{}
+	for _, k := range c16keys {
+		for i := range k {
+			if k[i] == '/' {
+				dirs[k[:i]] = true
+			}
+		}
+	}
+	for d := range dirs {
+		if _, isKey := model[d]; isKey {
+			continue
+		}
+		d := d
+		c20try(rep, "C16|Has-of-a-path-prefix|backend="+be, d, func() {
+			has, err := st.Has(ctx, d)
+			rep.Eval(1)
+			if err == nil && has {
+				viol("Has-of-a-path-prefix", fmt.Sprintf("Has(%s)=true: no such object was ever stored (it is only a proper path prefix of the keys)", d))
+			}
+		})
+	}
 	c20try(rep, "C16|Keys|backend="+be, "", func() {
 		ks, err := st.Keys(ctx)
 		rep.Eval(1)
@@ -225,7 +247,7 @@ func TestC16(t *testing.T) {
 	if !lib.Thorough() {
 		nk = 5
 	}
-	rep.Rule = fmt.Sprintf("(a) all 3^%d states over keys %v (absent/d1/d2) on afero OsFs and MemMapFs: full observer battery in every state (Get/Has/GetAttr of every key, Keys, KeysPrefix x 7 prefixes x 2 delimiters x every page size, paginated) and every transition (Put excl/overwrite of each key and datum from an io.WriterTo / a plain reader / a reader delivering its last bytes with EOF, Delete of each key and of each name that is a proper path prefix of keys, an abandoned first listing page followed by a mutation and a fresh listing) compared with a map model; (b) 2..3 concurrent exclusive Puts of different bytes to one key, afero calls gated, all interleavings; (c) one Put (overwrite with a shorter / longer value, or exclusive create; with and without the store's lock option) concurrent with one Get+read of the same key through the same store object, afero open/read/write/close calls gated, all interleavings: the read returns the previous or the new object, never anything else; plus, sequentially and with/without the store's lock option: Get, overwrite, then consume the reader; distinct = distinct (backend,state)", nk, c16keys[:nk])
+	rep.Rule = fmt.Sprintf("(a) all 3^%d states over keys %v (absent/d1/d2) on afero OsFs and MemMapFs: full observer battery in every state (Get/Has/GetAttr of every key, Has of every proper path prefix of the keys, Keys, KeysPrefix x 7 prefixes x 2 delimiters x every page size, paginated) and every transition (Put excl/overwrite of each key and datum from an io.WriterTo / a plain reader / a reader delivering its last bytes with EOF, Delete of each key and of each name that is a proper path prefix of keys, an abandoned first listing page followed by a mutation and a fresh listing) compared with a map model; (b) 2..3 concurrent exclusive Puts of different bytes to one key, afero calls gated, all interleavings; (c) one Put (overwrite with a shorter / longer value, or exclusive create; with and without the store's lock option) concurrent with one Get+read of the same key through the same store object, afero open/read/write/close calls gated, all interleavings: the read returns the previous or the new object, never anything else; plus, sequentially and with/without the store's lock option: Get, overwrite, then consume the reader; distinct = distinct (backend,state)", nk, c16keys[:nk])
 	total := 1
 	for i := 0; i < nk; i++ {
 		total *= 3
